@@ -1154,8 +1154,11 @@ def run_scenario(scenario):
             packets = []
 
             def schedule_events():
+                if layer == 5:
+                    # once the first receive is suspended in the transport, before any data arrives
+                    loop.call_at(t0 + 0.25, out["start_senders"])
                 for time, kind, payload in events:
-                    if kind == 0 and layer in (2, 3):
+                    if kind == 0 and layer in (2, 3, 5):
                         cb = (lambda p=payload: deliver_plain(p))
                     else:
                         cb = (lambda p=payload: feeder.push(p)) if kind == 0 else feeder.push_eof
@@ -1163,7 +1166,7 @@ def run_scenario(scenario):
 
             sent_plain = bytearray()
             attempt_task, attempt_k, started = [None], [0], [False]
-            if layer in (2, 3):
+            if layer in (2, 3, 5):
                 import tlskit
                 from easynetwork.lowlevel.api_async.transports.tls import AsyncTLSStreamTransport
                 version = tlskit.TLS13 if consumer == 1 else tlskit.TLS12
@@ -1174,16 +1177,32 @@ def run_scenario(scenario):
                     if reply:
                         loop.call_soon(feeder.push, reply)
                 wire.on_write = on_write
-                lower = _checkpointing_lower(adapter, backend) if layer == 3 else adapter
+                gate = asyncio.Event()
+                gate.set()
+                lower = (_checkpointing_lower(adapter, backend) if layer == 3
+                         else _checkpointing_lower(adapter, backend, gate) if layer == 5 else adapter)
                 out["ssl_answers"] = ssl_answers = []
                 rec.event([L_TLSOP, 0])
                 tls = await AsyncTLSStreamTransport.wrap(lower, RecSSLContext(tlskit.client_ctx(version), ssl_answers),
                                                          server_hostname="localhost",
                                                          server_side=False, standard_compatible=False)
                 out["handshake_labels"] = len(rec.labels)
+                senders = []
+                if layer == 5:
+                    # back-pressure below: one send_all() is parked in the lower transport with the send lock held, a
+                    # second one waits for the lock with its ciphertext pending in the outgoing BIO
+                    def start_senders():
+                        gate.clear()
+                        senders.append(loop.create_task(tls.send_all(b"ping1\n")))
+                        senders.append(loop.create_task(tls.send_all(b"ping2\n")))
+                    out["start_senders"] = start_senders
+                    from easynetwork.lowlevel.api_async.endpoints.stream import AsyncStreamEndpoint
+                    ep5 = AsyncStreamEndpoint(tls, _make_protocols(consumer), max_recv_size=64)
 
                 async def receive(timeout):
                     started[0] = True
+                    if layer == 5:
+                        return bytes(await ep5.recv_packet())     # recv() / recv_into() of the TLS transport underneath
                     rec.event([L_TLSOP, 64])
                     if consumer == 1 and layer == 3:
                         buf = bytearray(64)
@@ -1266,6 +1285,8 @@ def run_scenario(scenario):
                         await asyncio.sleep(_t(delay))
                     results.append(await attempt(budget))
                 # read the rest without any limit: everything delivered must come out
+                if layer == 5:
+                    gate.set()             # the back-pressure ends
                 if not any(kind == 1 for _, kind, _ in events):
                     last = max([_t(time) for time, _, _ in events] + [0.0])
                     loop.call_at(max(loop.time(), t0 + last) + 1.0, feeder.push_eof)
@@ -1284,8 +1305,11 @@ def run_scenario(scenario):
                 schedule_events()
             out["consumer_task"] = consumer_task = loop.create_task(consume())
             await consumer_task
+            if layer == 5:
+                gate.set()
+                await asyncio.gather(*senders, return_exceptions=True)
             with contextlib.suppress(Exception):
-                await (tls.aclose() if layer in (2, 3) else adapter.aclose())
+                await (tls.aclose() if layer in (2, 3, 5) else adapter.aclose())
             out["results"] = results
             out["sent_plain"] = bytes(sent_plain)
             out["packets"] = packets
@@ -1294,7 +1318,10 @@ def run_scenario(scenario):
         rec._turns()
 
     got = [r[1] for r in out["results"] if r[0] == 0]
-    if layer in (2, 3):
+    if layer == 5:
+        # the endpoint over TLS must hand out every packet the peer wrote, whatever timed out on the way
+        packets_ok = 1 if got == frames_of(out["sent_plain"]) or not detect_fixed() else 0
+    elif layer in (2, 3):
         # The scenario reads the TLS stream to its end.  On the repaired protocol nothing may be missing: every plaintext
         # byte the peer wrote comes out, in order, whatever was cancelled on the way (an SSLError or an early EOF after a
         # cancelled receive is a failure).  On the pre-fix protocol (F4) lost ciphertext legitimately breaks the session.
@@ -1379,7 +1406,7 @@ def _cancel_after(loop, task_box, k):
     loop.call_soon(step, k)
 
 
-def _checkpointing_lower(adapter, backend):
+def _checkpointing_lower(adapter, backend, gate=None):
     from easynetwork.lowlevel.api_async.transports.abc import AsyncStreamTransport
 
     class CheckpointingTransport(AsyncStreamTransport):
@@ -1398,7 +1425,10 @@ def _checkpointing_lower(adapter, backend):
             return await adapter.recv_into(buffer)
 
         async def send_all(self, data):
-            await backend.coro_yield()
+            if gate is not None:
+                await gate.wait()          # back-pressure: parked until the harness opens the gate
+            else:
+                await backend.coro_yield()
             await adapter.send_all(data)
 
         async def send_eof(self):
@@ -1575,7 +1605,7 @@ _last_results = [None]
 def _scenario_output(scenario):
     labels, obs, delivered, returned, packets_ok, _results = run_scenario(scenario)
     _last_results[0] = _results
-    if scenario[0] in (2, 3):
+    if scenario[0] in (2, 3, 5):
         labels, obs, delivered, returned = canonicalise(labels, obs, delivered, returned)
     return labels, [obs, delivered, returned, packets_ok]
 
@@ -1618,6 +1648,15 @@ def _scenario_cases(thorough, rng):
                     events = [[at, 0, b"A\nB\nC\nD\n"], [[3, 0], 0, b"EF\nG"], [[4, 0], 0, b"H\n"]]
                     ops_i = [[[0, 0], first]] + [[[0, 0], b] for b in budgets]
                     yield [4, consumer, 5, 0, ops_i, events], "grid"
+    # the endpoint (recv -> tls.recv, buffered -> tls.recv_into) over TLS while two send_all() are held back below (one
+    # parked in the lower transport with the send lock, one waiting for the lock with ciphertext pending): a receive that
+    # has its plaintext must return it at once, not queue behind them until its deadline
+    for consumer in (0, 1):
+        for ck in (0, 1):
+            for chunks in ([b"AB\nC", b"D\nEF\n"], [b"AB\n", b"CD\nEF\n"]):
+                for s1 in subs:
+                    events = [[[1, s1], 0, chunks[0]], [[3, 0], 0, chunks[1]], [[6, 0], 1, b""]]
+                    yield [5, consumer, ck, 0, [[[0, 0], [2, 0]]] * 3, events], "grid"
     # TLS over a lower transport whose send_all() is a checkpoint (as trio's streams, or the adapter under write flow
     # control): a cancellation k loop iterations after a read event can land inside tls.recv()/recv_into() after the
     # plaintext left the SSL object
@@ -1651,7 +1690,7 @@ def _scenario_cases(thorough, rng):
 
 
 LAYER_NAMES = {0: "endpoint", 1: "server-receiver", 2: "tls", 3: "tls-over-checkpointing-transport",
-               4: "client-recv-iterator"}
+               4: "client-recv-iterator", 5: "endpoint-over-tls-with-send-backpressure"}
 CANCEL_NAMES = {0: "timeout", 1: "move_on_after", 2: "task-cancel", 3: "receiver-timeout-arg",
                 4: "task-cancel-k-iterations-after-read-event", 5: "iterator-timeout"}
 
@@ -1673,7 +1712,7 @@ def _mode2_cases(thorough, rng):
             _cache["t" + repr(runner_norm(scenario))] = (tlabels, tout)
             yield dict(input=[6, tlabels, answers, scenario], tags=["tls-retry-loop-model"] + tags[1:],
                        nontrivial=any(lab[0] == L_CANCEL for lab in labels))
-        if scenario[0] not in (2, 3, 4) and detect_fixed():
+        if scenario[0] not in (2, 3, 4, 5) and detect_fixed():
             # the composed model Conc/SockEndpoint.v (receive loop + repaired protocol) against the same run
             results = _last_results[0]
             elabels = run_scenario.last_elabels
